@@ -135,3 +135,38 @@ def plain_attrs(obj):
         if p is not None:
             out.append((n, p))
     return out
+
+
+def container_attrs(obj, skip=()):
+    """Every container-valued instance attribute (dict / list / set / tuple) of a library object in a comparable summary: keys as they are,
+    plain values as they are, other values by type name and size.  Added to a canonical state next to the tables the reference model knows,
+    so that a history which leaves something behind in a container the author of the check has never heard of (a cache added by a later
+    change) is not merged with a history that does not - merging them would hide everything reachable only from the first."""
+    def summary(v, depth=0):
+        if isinstance(v, (bool, int, float, str, bytes, type(None))):
+            return repr(v)
+        if isinstance(v, dict):
+            if depth >= 2:
+                return f"dict[{len(v)}]"
+            return "{" + ", ".join(sorted(f"{k!r}: {summary(x, depth + 1)}" if isinstance(k, (bool, int, float, str, bytes, type(None), tuple))
+                                          else f"<{type(k).__name__}>: {summary(x, depth + 1)}" for k, x in v.items())) + "}"
+        if isinstance(v, (list, tuple)):
+            if depth >= 2:
+                return f"{type(v).__name__}[{len(v)}]"
+            return "[" + ", ".join(summary(x, depth + 1) for x in v) + "]"
+        if isinstance(v, (set, frozenset)):
+            return "{" + ", ".join(sorted(summary(x, depth + 1) for x in v)) + "}"
+        g = getattr(v, "get", None)
+        if callable(g) and type(v).__module__.startswith("secsgem.secs"):
+            try:
+                return repr(g())
+            except Exception:  # noqa: BLE001
+                return "<unreadable>"
+        return f"<{type(v).__name__}>"
+
+    out = []
+    for n, v in sorted(vars(obj).items()):
+        if n in skip or not isinstance(v, (dict, list, tuple, set, frozenset)):
+            continue
+        out.append((n, summary(v)))
+    return out
